@@ -1,7 +1,7 @@
 (** C15 — Requires resolve as documented and conversions keep the target.
     Only statements, closed by [exact], with their assumptions printed. *)
 From DL Require Import Lib.Bytes Model.Paths Model.Require Proof.PathsBasics Proof.PathsFacts
-  Proof.RequireFacts Proof.PathsRoundtrip Proof.PathsConvert Proof.PathsConvertFinal.
+  Proof.RequireFacts Proof.PathsRoundtrip Proof.PathsConvert Proof.PathsConvertFinal Proof.PathsBounded.
 Open Scope N_scope.
 
 (** the candidate list is the documented list *)
@@ -254,6 +254,26 @@ Check C15_convert_keeps_target_toplevel :
     exists t',
       find_require tgt rcs f [Norm s] (generate_require tgt [Norm s] (Cur :: t)) = Found t' /\
       same_file t' (Cur :: t) = true.
+
+
+(** bounded complement (aliases, custom module folder name, absolute targets; 6 configuration pairs x
+    128 file subsets x 6 requiring files x 33 require strings, by evaluation) *)
+Theorem C15_convert_keeps_target_bounded :
+  forall cur tgt mask src lit t,
+    In (cur, tgt) bounded_pairs -> In mask bounded_masks -> In src bounded_sources -> In lit bounded_literals ->
+    find_require cur [] (bounded_fs mask) src lit = Found t ->
+    ambiguousb tgt (bounded_fs mask) t = false ->
+    relative_result src t = false ->
+    exists t', find_require tgt [] (bounded_fs mask) src (generate_require tgt src t) = Found t' /\ same_file t' t = true.
+Proof. exact convert_keeps_target_bounded. Qed.
+Print Assumptions C15_convert_keeps_target_bounded.
+Check C15_convert_keeps_target_bounded :
+  forall cur tgt mask src lit t,
+    In (cur, tgt) bounded_pairs -> In mask bounded_masks -> In src bounded_sources -> In lit bounded_literals ->
+    find_require cur [] (bounded_fs mask) src lit = Found t ->
+    ambiguousb tgt (bounded_fs mask) t = false ->
+    relative_result src t = false ->
+    exists t', find_require tgt [] (bounded_fs mask) src (generate_require tgt src t) = Found t' /\ same_file t' t = true.
 
 (** the unrestricted statement is refuted in the model (and on the code: known findings) *)
 Theorem C15_convert_keeps_target_refuted : ~ convert_full_statement.
